@@ -133,8 +133,9 @@ def finish(rep: Report) -> int:
             d["violated"] += 1
     coverage = {
         "explanation": (
-            f"Static analysis of {rep.repo}/bibtexparser source (ast; nothing imported or executed). "
-            f"Each obligation is one instance of a rule (a call site, store, path, table row or class) that was "
+            f"Static analysis of {rep.repo}/bibtexparser source (ast; the package is neither imported nor executed by Python - where a rule "
+            f"speaks of running a function or a table of texts, the analyser's own interpreter evaluates the source, abstractly or on "
+            f"concrete values). Each obligation is one instance of a rule (a call site, store, path, table row or class) that was "
             f"extracted from the current source and compared with the rule's requirement / reference table. "
             f"The verdict covers the named structural clauses for all inputs, histories and configurations; "
             f"it is not a behavioural proof of the whole property. Not decided: " + ("; ".join(rep.not_decided) or "see DESIGN.md section 5")
